@@ -85,7 +85,7 @@ var opStarted, opLimit int64
 // timed keep-alive windows); everything else answers within milliseconds
 var slowCores = map[string]time.Duration{
 	"ring": 240 * time.Second, "codec": 240 * time.Second, "conc": 240 * time.Second,
-	"life": 120 * time.Second, "ka": 120 * time.Second, "broker": 60 * time.Second, "client": 60 * time.Second,
+	"life": 240 * time.Second, "ka": 240 * time.Second, "broker": 240 * time.Second, "client": 120 * time.Second,
 }
 
 func opLimitOf(core string) time.Duration {
@@ -95,7 +95,7 @@ func opLimitOf(core string) time.Duration {
 	if d, ok := slowCores[core]; ok {
 		return d
 	}
-	return 20 * time.Second
+	return 60 * time.Second
 }
 
 func opWatchdog() {
